@@ -66,7 +66,7 @@ var ReqFactors = []string{"method", "proto", "host", "upgrade", "connection", "v
 // ReqVariants lists the variants of each factor; the first is canonical.
 var ReqVariants = map[string][]string{
 	"method": {"GET", "get", "POST", "HEAD", "PUT", "OPTIONS", "GETT"},
-	"proto": {"HTTP/1.1", "HTTP/1.0", "HTTP/1.2", "HTTP/1.9", "HTTP/1.10", "HTTP/2.0", "HTTP/0.9", "HTTP/1.:", "HTTP/1.;", "HTTP/1.1x", "HTTP/1.18446744073709551617", "missing", "HTTP/1.01", "http/1.1", "HTTP/1.", "HTTP/.1", "HTTP/11",
+	"proto": {"HTTP/1.1", "HTTP/1.0", "HTTP/1.2", "HTTP/1.9", "HTTP/1.10", "HTTP/2.0", "HTTP/0.9", "HTTP/1.:", "HTTP/1.;", "HTTP/1.1x", "HTTP/1.18446744073709551617", "missing", "HTTP/1.01", "http/1.1", "Http/1.1", "hTTp/1.2", "HTTP/1.", "HTTP/.1", "HTTP/11",
 		// number spellings that a general-purpose integer parser takes but an HTTP version does not have
 		"HTTP/1.+1", "HTTP/+1.1", "HTTP/1.-1", "HTTP/-1.1", "HTTP/1.1e0", "HTTP/0x1.1", "HTTP/1_0.1", "HTTP/1.١"},
 	"host":       {"canonical", "absent", "case-name", "blanks", "empty", "dup-same", "with-port"},
@@ -151,9 +151,14 @@ func BuildReq(rng *rand.Rand, choice map[string]string, protoHdrs, extHdrs []str
 		r.Proto = ""
 		v.Reject("no version", 400, 505)
 		v.NoResponseOK = true
-	case "HTTP/1.01", "http/1.1":
+	case "HTTP/1.01":
 		r.Proto = p
 		v.MarkOpen("version token " + p)
+		v.NoResponseOK = true
+	case "http/1.1", "Http/1.1", "hTTp/1.2":
+		// the protocol name is case-sensitive (RFC 7230 §2.6): not HTTP/1.x
+		r.Proto = p
+		v.Reject("protocol name "+p, 505, 400)
 		v.NoResponseOK = true
 	}
 	if get("eol") == "lf" {
